@@ -13,6 +13,7 @@ func usage() {
   gosym check <property-id> [--tier quick|thorough]
   gosym run <pkg> <Func> [int params...]      (debug: explore one harness job)
   gosym replay <witness.json>
+  gosym trace <witness.json>                  (debug: engine with pinned inputs vs native run, with harness notes)
   gosym list`)
 	os.Exit(2)
 }
@@ -91,6 +92,11 @@ func main() {
 	case "check":
 		genDocCommands()
 		rc := cmdCheck(os.Args[2:])
+		cleanupGen()
+		os.Exit(rc)
+	case "trace":
+		genDocCommands()
+		rc := cmdTrace(os.Args[2:])
 		cleanupGen()
 		os.Exit(rc)
 	case "replay":
